@@ -131,6 +131,8 @@ class Check(PropertyCheck):
                     jobs2[j][p] = (jobs2[j][p][0], jobs2[j][p][1] + 1)
             lines.append(f"eqsched {inst_tokens(jobs)} ; {' '.join(map(str, h1))} ; {inst_tokens(jobs2)} ; "
                          f"{' '.join(map(str, h2))}")
+            # same machine orders, start times shifted (a schedule with idle time at the front)
+            lines.append(f"eqshift {inst_tokens(jobs)} ; {' '.join(map(str, h1))} ; {rng.choice([0, 1, 1, 2, 5])}")
             meta = {"kind": kind, "field": field}
         lines.append("mark other")
         return Scenario(lines, meta)
@@ -141,7 +143,7 @@ class Check(PropertyCheck):
     def oracle(self, impl, scenario, index, line, out, ctx):
         res = []
         cmd = line.split()[0]
-        if cmd in ("eqop", "eqsop", "eqinst", "eqsched"):
+        if cmd in ("eqop", "eqsop", "eqinst", "eqsched", "eqshift"):
             x, y = impl.last_pair
             content = lambda o: self.content(o)  # noqa: E731
             same = content(x) == content(y)
